@@ -83,7 +83,7 @@ def run(tier, seed):
                 B.run_case(regrun.policy_of(pd), reg, "dict", "reject", f"{n1}+{n2}/{fmt}", scn=s)
     B.close()
     chk.notes.append({"oracle_queries": B.O.counts})
-    fw.env_invariance(chk, "reg")          # the same seeded cases under -O / -OO, warnings-as-errors, other TZ / locale, a private CA bundle
+    fw.env_invariance(chk, "auth", "reg")          # the same seeded cases under -O / -OO, warnings-as-errors, other TZ / locale, a private CA bundle
     return fw.finish(chk, ob, br, TRUSTED,
                      ["the abstract certificate record (key, version, subject, SAN directoryName attributes, EKU, basicConstraints, Apple nonce extension bytes, "
                       "Android KeyDescription incl. PRESENCE of allApplications) faithfully reflects the DER - validated only by agreement of model and implementation"],
